@@ -428,11 +428,10 @@ where
             let x = T::from_b(fb);
             // compare with the fixed value nearest the float (both neighbours) and a few lattice values
             let mut cand: Vec<u128> = vec![];
-            if let Ok(r) = cat(|| A::saturating_from_num(x)) {
-                let rr = r.raw();
-                for d in [-1i128, 0, 1] {
-                    cand.push((rr.wrapping_add(d as u128)) & mask(la.w));
-                }
+            // (always three candidates, so that the number of events does not depend on the library's behaviour)
+            let rr = match cat(|| A::saturating_from_num(x)) { Ok(r) => r.raw(), Err(_) => 0 };
+            for d in [-1i128, 0, 1] {
+                cand.push((rr.wrapping_add(d as u128)) & mask(la.w));
             }
             cand.push(avs[i % avs.len()]);
             cand.push(rng.pattern(la.w));
